@@ -35,8 +35,18 @@ META = {'specs': {}}
 PREPEND_BOX = []
 
 
+# plain data living OUTSIDE the graph functions that use it (module level): a build may read it, never change it
+LEVELS = [0, 1, 0.5, 0.25]
+TIMES = [0.1, 0.2, 0.3, 0.4]
+CURVES = [-4, 'lin', 2, 'sin']
+PAIRS = [[0.5, 1], [0, 0], [1, 0.3]]
+XYC = [[0.5, 1, -2], [0, 0, 'lin'], [1, 0.3, 'lin']]
+FREQS = [440, 441.5, 0, 330]
+NESTED = [[100, 200], [300, 400]]
+
+
 def shared_args_state():
-    return repr((RATES, RATES4, VARIANTS, META))
+    return repr((RATES, RATES4, VARIANTS, META, LEVELS, TIMES, CURVES, PAIRS, XYC, FREQS, NESTED))
 
 
 # ---- user-defined unit generator classes (defined once, at import time)
@@ -263,6 +273,71 @@ def _build_env_history():
     return sd
 
 
+def _f_outer_data():
+    """Envelopes, channel lists and expanded constructors made from data that outlives the build."""
+    from sc3.synth.envelope import Env
+    e1 = Env.cyclic(LEVELS, TIMES, CURVES)
+    e2 = Env(LEVELS, TIMES[:3], CURVES[:3]).circle(0.5, 'lin')
+    e3 = Env(LEVELS, TIMES[:3], CURVES[:3], 2).circle()
+    e4 = Env.pairs(PAIRS, 'lin')
+    e5 = Env.xyc(XYC)
+    s = SinOsc.ar(FREQS) * ugn.ChannelList(FREQS)
+    n = ugn.ChannelList(NESTED).sum()
+    Out.kr(0, [_envgen(e) for e in (e1, e2, e3, e4, e5)])
+    Out.ar(0, s)
+    Out.kr(9, SinOsc.kr(n))
+
+
+def _g_outer_data_then_raises():
+    from sc3.synth.envelope import Env
+    _envgen(Env.cyclic(LEVELS, TIMES, CURVES))
+    _envgen(Env(LEVELS, TIMES[:3]).circle())
+    SinOsc.ar(FREQS)
+    raise BuildError('after envelopes made from outer data')
+
+
+def _build_function_state_history():
+    """The SAME function object built again after its observable state changed (defaults, annotations, a closure
+    cell, a global it reads) -- also after a failing build of it -- must build like a fresh function that has that
+    state from the start."""
+    box = {'fail': True, 'mul': 2}
+
+    def make(freq_default, amp_default, annot, mul):
+        cell = [mul]
+
+        def tmpl(freq=440, amp=0.1):
+            if box['fail']:
+                Saw.ar(freq)
+                raise BuildError('first build of the template fails')
+            Out.ar(0, Saw.ar(freq) * amp * cell[0])
+        tmpl.__defaults__ = (freq_default, amp_default)
+        if annot:
+            tmpl.__annotations__ = dict(annot)
+        return tmpl, cell
+    used, cell = make(440, 0.1, None, 2)
+    try:
+        SynthDef('x_tmpl', used)
+    except BuildError:
+        pass
+    box['fail'] = False
+    first = bytes(SynthDef('x_tmpl', used).as_bytes())
+    fresh0, _ = make(440, 0.1, None, 2)
+    if first != bytes(SynthDef('x_tmpl', fresh0).as_bytes()):
+        raise SilentDrop('a function built after a FAILING build of the same function object differs from a fresh one')
+    used.__defaults__ = (220, 0.5)
+    used.__annotations__['freq'] = 'ir'
+    cell[0] = 3
+    sd = SynthDef('x_tmpl', used)
+    fresh, _ = make(220, 0.5, {'freq': 'ir'}, 3)
+    expected = SynthDef('x_tmpl', fresh)
+    if bytes(sd.as_bytes()) != bytes(expected.as_bytes()):
+        raise SilentDrop('the same function object rebuilt after its defaults / annotations / closure changed builds '
+                         'differently from a fresh function with that state: controls %s %s, expected %s %s'
+                         % ([c.name for c in sd._all_control_names], sd._controls,
+                            [c.name for c in expected._all_control_names], expected._controls))
+    return sd
+
+
 def _plain(name, f, *a):
     """A definition built WITHOUT variants / metadata owns fresh, empty ones."""
     def build():
@@ -326,6 +401,8 @@ def good():
         ('env_after_failed_use', lambda: SynthDef('x_envf', _f_env_after_failed_use)),
         ('env_curverange_interior', lambda: SynthDef('x_envcv', _f_env_curverange_interior)),
         ('env_setter_history', _build_env_history),
+        ('outer_data', lambda: SynthDef('x_outer_data', _f_outer_data)),
+        ('function_state_history', _build_function_state_history),
         ('nodefault', _plain('x_nodef', _f_nodefault)),
         ('plain_three', _plain('x_plain3', _f_three)),
         ('plain_wrap', _plain('x_plainw', _f_wrap)),
@@ -491,6 +568,7 @@ def fails():
     sd = lambda n, f, *a: (lambda: SynthDef(n, f, *a))
     return [
         ('env_used_then_raises', sd('y0', _g_env_used_then_raises)),
+        ('outer_data_then_raises', sd('y0b', _g_outer_data_then_raises)),
         ('raise_first', sd('y1', _g_raise_first)),
         ('raise_after_controls', sd('y2', _g_raise_after_controls)),
         ('raise_after_units', sd('y3', _g_raise_after_units)),
